@@ -102,7 +102,21 @@ def run_scenario(sc: dict[str, Any]) -> dict[str, Any]:
                 if c.get('interval'): kw['interval'] = c['interval']
                 if c.get('idle'): kw['idle'] = c['idle']
                 kopf.timer(GROUP, VERSION, PLURAL, registry=reg, id=hid, **kw, **flt)(mk_timer(hid, c))
-        op = sim.operator('op1', reg, sim.settings(background__cancellation_polling=3))
+        if sc.get('peering'):        # the operator takes part in a cluster peering: a foreign record of a higher priority pauses it
+            import datetime
+            from sim.fakek8s import ResDef
+            pres = sim.srv.add_resource(ResDef('kopf.dev', 'v1', 'clusterkopfpeerings', 'ClusterKopfPeering', namespaced=False))
+            sim.srv.create(pres, None, 'default', {})
+            op = sim.operator('op1', reg, sim.settings(background__cancellation_polling=3, peering__lifetime=60), peering_name='default',
+                              priority=10, identity='op1', clusterwide=True)
+            from sim.clock import EPOCH as epoch
+
+            def pause(life: int) -> None:
+                iso = (epoch + datetime.timedelta(seconds=sim.now)).isoformat()
+                sim.srv.edit(pres, None, 'default', lambda o_: o_.setdefault('status', {}).update(
+                    x={'priority': 100, 'lifetime': life, 'lastseen': iso}), actor='ext')
+        else:
+            op = sim.operator('op1', reg, sim.settings(background__cancellation_polling=3))
         hold = {'fin': sc.get('delete_before_finalizer', False)}
         from sim.fakek8s import Plan
         sim.srv.policy = lambda req: Plan(pre=hold['fin'] and req.route.get('kind') == 'patch' and 2 or 0)
@@ -126,6 +140,8 @@ def run_scenario(sc: dict[str, Any]) -> dict[str, Any]:
                 sim.delete('o1')
             elif op_ == 'forcefin' and o is not None and o['metadata'].get('finalizers'):
                 sim.edit('o1', lambda b: b['metadata'].pop('finalizers', None), actor='foreign')
+            elif op_ == 'pause' and sc.get('peering'):
+                pause(*a)
             elif op_ == 'stop':
                 if not op.done: op.stop()
         for (t, ph, op_, *a) in sc.get('env', []):
@@ -139,6 +155,7 @@ def run_scenario(sc: dict[str, Any]) -> dict[str, Any]:
             stall = True; sim.rec('stall', what=str(e))
         # ---- convert
         out: list[dict[str, Any]] = []
+        pstate = {'on': False}
         snaps: dict[int, dict[str, Any]] = {}
         for e in sim.recorder.events:
             ev = e['ev']; t = e['t']
@@ -165,6 +182,8 @@ def run_scenario(sc: dict[str, Any]) -> dict[str, Any]:
             elif ev == 'd.cancel': out.append({'ev': 'cancel', 't': t, 'h': e['h']})
             elif ev == 'd.exit': out.append({'ev': 'exit', 't': t, 'h': e['h'], 'how': e['how']})
             elif ev == 'op.stop': out.append({'ev': 'opexit', 't': t})
+            elif ev == 'peer.eval' and bool(e.get('paused')) != pstate['on']:
+                pstate['on'] = bool(e.get('paused')); out.append({'ev': 'paused', 't': t, 'on': pstate['on']})
             elif ev == 'quiet': out.append({'ev': 'quiet', 't': t})
             elif ev == 'stall': out.append({'ev': 'stall', 't': t})
         none = {'kind': 'none', 'backoff': 0, 'timeout': 0, 'sync': False}
@@ -172,7 +191,7 @@ def run_scenario(sc: dict[str, Any]) -> dict[str, Any]:
                      'sync': bool(sc['handlers'][h].get('sync'))}
                     if h in sc['handlers'] else none) for h in HS}
         sconf = {'dh': {h: {'kind': conf[h]['kind'], 'backoff': conf[h]['backoff'], 'timeout': conf[h]['timeout'], 'sync': conf[h]['sync']} for h in HS},
-                 'polling': 3, 'filter': bool(use_label), 'exitto': 2}
+                 'polling': 3, 'filter': bool(use_label), 'exitto': 2, 'peering': bool(sc.get('peering'))}
         strace = convert_spawning(sim.recorder.events)
         return {'id': sc['id'], 'conf': conf, 'events': out, 'stall': stall, 'scenario': sc,
                 'spawning': {'id': sc['id'], 'conf': sconf, 'init': strace['init'], 'events': strace['events']}}
@@ -184,9 +203,18 @@ lastwrite: dict[str, Any] = {}
 
 
 def convert_spawning(raw: list[dict[str, Any]]) -> dict[str, Any]:
-    """Recorder log -> events of Trace_Spawning.tla. Renaming and projection only (versions -> 1, 2, 3, ... of the object)."""
+    """Recorder log -> events of Trace_Spawning.tla. Renaming and projection only (the versions of the object -> 1, 2, 3, ...)."""
     out: list[dict[str, Any]] = []
-    off = None; init = None; last_rv = 0; pending: dict[str, Any] = {}
+    init = None; pending: dict[str, Any] = {}
+    rvmap: dict[int, int] = {}
+
+    def new(rv: int) -> int:
+        rvmap.setdefault(int(rv), len(rvmap) + 1)
+        return rvmap[int(rv)]
+
+    def old(rv: Any) -> int:
+        return rvmap.get(int(rv), 0) if rv is not None else 0
+    paused = False
     scheds: dict[int, str] = {}
     for e in raw:
         ev = e['ev']; t = e['t']
@@ -194,43 +222,44 @@ def convert_spawning(raw: list[dict[str, Any]]) -> dict[str, Any]:
             scheds[e['sched']] = e['res']
             continue
         if ev == 'srv.create' and e.get('res') == 'things':
-            if off is None:
-                off = e['rv'] - 1; init = {'t': t, 'match': bool(e['proj']['match'])}; last_rv = 1
+            if init is None:
+                new(e['rv']); init = {'t': t, 'match': bool(e['proj']['match'])}
             continue
-        if off is None:
+        if init is None:
             continue
         if ev == 'srv.write' and e.get('res') == 'things':
             if e.get('noop'): continue
             if e.get('how') == 'delete':             # removed at once (no finalizers): no srv.state follows
-                last_rv = e['rv'] - off
-                out.append({'ev': 'delete', 't': t, 'rv': last_rv, 'gone': True})
+                out.append({'ev': 'delete', 't': t, 'rv': new(e['rv']), 'gone': True})
             else:
                 pending = e
         elif ev == 'srv.state' and e.get('res') == 'things':
-            rv = e['rv'] - off
-            if rv != last_rv + 1:
-                raise MachineryFailure(f'versions of the object are not consecutive: {last_rv} -> {rv}')
-            last_rv = rv; p = e['proj']; actor = pending.get('actor'); how = pending.get('how')
+            rv = new(e['rv']); p = e['proj']; actor = pending.get('actor'); how = pending.get('how')
             if how == 'delete-mark': out.append({'ev': 'delete', 't': t, 'rv': rv, 'gone': False})
             elif actor == 'user': out.append({'ev': 'edit', 't': t, 'rv': rv, 'match': bool(p['match'])})
             elif actor == 'foreign': out.append({'ev': 'forcefin', 't': t, 'rv': rv, 'gone': bool(e.get('gone'))})
         elif ev in ('q.new', 'q.put') and e.get('res') == 'things' and e.get('type') is not None:
-            out.append({'ev': 'deliver', 't': t, 'rv': int(e['rv']) - off, 'type': e['type']})
+            out.append({'ev': 'deliver', 't': t, 'rv': old(e['rv']), 'type': e['type']})
         elif ev == 'q.proc.begin' and e.get('res') == 'things':
-            out.append({'ev': 'begin', 't': t, 'rv': int(e['rv']) - off, 'type': e.get('type') or 'NONE'})
+            out.append({'ev': 'begin', 't': t, 'rv': old(e['rv']), 'type': e.get('type') or 'NONE'})
         elif ev == 'q.proc.end' and e.get('res') == 'things':
             out.append({'ev': 'end', 't': t})
         elif ev == 'srv.req' and e.get('plural') == 'things' and e.get('kind') == 'patch':
             code = e['code']; p = e.get('proj') or {}
             if e.get('ptype') == 'merge':
-                out.append({'ev': 'merge', 't': t, 'code': code, 'rv': (p.get('rv', off) - off), 'dummy': bool(p.get('dummy')), 'fin': FIN in p.get('fins', [])})
+                out.append({'ev': 'merge', 't': t, 'code': code, 'rv': old(p.get('rv')), 'dummy': bool(p.get('dummy')), 'fin': FIN in p.get('fins', [])})
             else:
-                out.append({'ev': 'json', 't': t, 'code': code, 'rv': (p.get('rv', off) - off), 'fin': FIN in p.get('fins', []), 'gone': bool(e.get('gone'))})
+                out.append({'ev': 'json', 't': t, 'code': code, 'rv': old(p.get('rv')), 'fin': FIN in p.get('fins', []), 'gone': bool(e.get('gone'))})
         elif ev == 'd.enter': out.append({'ev': 'enter', 't': t, 'h': e['h']})
         elif ev == 'd.flagseen': out.append({'ev': 'flagseen', 't': t, 'h': e['h']})
         elif ev == 'd.cancel': out.append({'ev': 'cancel', 't': t, 'h': e['h']})
         elif ev == 'd.exit': out.append({'ev': 'exit', 't': t, 'h': e['h']})
         elif ev == 't.tick': out.append({'ev': 'tick', 't': t, 'h': e['h']})
+        elif ev == 'peer.eval' and bool(e.get('paused')) != paused:
+            paused = bool(e.get('paused')); out.append({'ev': 'pause' if paused else 'resume', 't': t})
+        elif ev == 'srv.req' and e.get('plural') == 'things' and e.get('kind') == 'list' and e.get('code') == 200 and out:
+            rvs = e.get('rvs', [])
+            out.append({'ev': 'list', 't': t, 'rv': old(rvs[0]) if rvs else 0})
         elif ev == 'op.stop':
             if not any(x['ev'] == 'stop' for x in out):       # (the harness asks again when it ends the run)
                 out.append({'ev': 'stop', 't': t})
@@ -251,7 +280,7 @@ def judge_spawning(traces: list[dict[str, Any]], rep: Any = None) -> dict[str, d
     sts = [t['spawning'] for t in traces]
     nshards = max(1, min(14, len(sts) // 10))
     cfg = ('SPECIFICATION TSpec\nCONSTANTS\n  Hs = {"d1", "d2", "t1"}\n  ConfSet = {}\n  Horizon = 1000000\n  MaxEdits = 1000\n  MaxToggles = 1000\n'
-           '  MaxDeletes = 1000\n  MaxForce = 1000\n  MaxStops = 1000\n  MaxKills = 0\nCONSTRAINT Book\nPOSTCONDITION Verdicts\nCHECK_DEADLOCK FALSE\n')
+           '  MaxDeletes = 1000\n  MaxForce = 1000\n  MaxStops = 1000\n  MaxKills = 0\n  MaxPauses = 1000\nCONSTRAINT Book\nPOSTCONDITION Verdicts\nCHECK_DEADLOCK FALSE\n')
 
     def one(k: int):
         group = sts[k::nshards]
@@ -307,8 +336,14 @@ def gen_scenarios(seed: int, n: int) -> list[dict[str, Any]]:
         for _ in range(rnd.randint(1, 5)):
             t += rnd.choice([1, 1, 2, 3, 5, 8])
             env.append((t, rnd.choice([0, 1]), rnd.choice(['toggle', 'toggle', 'edit', 'delete', 'forcefin', 'stop'])))
-        out.append({'id': f'daemons-{seed}-{i}', 'handlers': hs, 'env': env, 'init_on': rnd.random() < 0.85,
-                    'delete_before_finalizer': False, 'end': t + 60})
+        sc = {'id': f'daemons-{seed}-{i}', 'handlers': hs, 'env': env, 'init_on': rnd.random() < 0.85,
+              'delete_before_finalizer': False, 'end': t + 60}
+        if i % 4 == 1:           # every fourth history: the operator is in a peering and is paused once or twice for a while
+            sc['peering'] = True
+            for _ in range(rs.choice([1, 1, 2])):
+                sc['env'].append((rs.randint(2, max(3, t)), rs.choice([0, 1]), 'pause', rs.choice([1, 2, 3, 5, 8])))
+            sc['env'].sort(key=lambda x: (x[0], x[1]))
+        out.append(sc)
     return out
 
 
@@ -325,6 +360,17 @@ def crafted() -> list[dict[str, Any]]:
                             'handlers': {'d1': {'kind': 'daemon', 'reaction': reaction, 'after': 6 if reaction == 'obey' else 0,
                                                 'backoff': b, 'timeout': t, 'sync': sync}},
                             'env': env, 'init_on': True, 'delete_before_finalizer': False, 'end': 60})
+    # the pausing branch of the daemon killer: a pause of several rounds (one per second), daemons that swallow the cancellation
+    # (cancelled again by every round), changes sneaking in at the instant of the pause and arriving during it
+    for k, (reaction, b, t, sync) in enumerate([('ignore', 1, 2, False), ('cancel', 2, 3, False), ('ignore', 0, 1, False), ('obey', 2, 2, False),
+                                                ('ignore', 2, 0, False), ('cancel', 1, 2, True)]):
+        for life in (3, 6):
+            for extra in ((), ((5, 1, 'edit'),), ((7, 1, 'toggle'),), ((6, 1, 'delete'),)):
+                out.append({'id': f'dpause-{k}-{life}-{len(out)}', 'peering': True,
+                            'handlers': {'d1': {'kind': 'daemon', 'reaction': reaction, 'after': 4 if reaction == 'obey' else 0,
+                                                'backoff': b, 'timeout': t, 'sync': sync}},
+                            'env': sorted([(5, 1, 'pause', life)] + list(extra), key=lambda x: (x[0], x[1])), 'init_on': True,
+                            'delete_before_finalizer': False, 'end': 70})
     return out
 
 
